@@ -332,6 +332,7 @@ class Model:
         self.method_hooks = []     # callables(interp, obj, name, args, kw) -> value | NotImplemented
         self.summaries_used = set()
         self.trace_calls = None    # optional list collecting (qualname, args) of interpreted repo calls
+        self.builtins = {}         # builtin name -> replacement callable (abstract min / max / abs ...)
 
 
 class Interp:
@@ -546,6 +547,8 @@ class Interp:
         r = self.prog.resolve_name(mod, name) if mod else None
         if r is not None:
             return self.value_of_resolved(r)
+        if name in self.model.builtins:
+            return self.model.builtins[name]
         b = self.lib.builtin(self, name)
         if b is not NotImplemented:
             return b
@@ -726,6 +729,8 @@ class Interp:
             return list(v)
         if hasattr(v, "__next__"):
             return v
+        if hasattr(v, "abs_iter"):
+            return v.abs_iter()
         if isinstance(v, DF):
             return list(v.cols)
         raise Undecided(f"iteration over {type(v).__name__} {v!r}")
@@ -811,6 +816,8 @@ class Interp:
             return self.ev(n.body if truth(self.ev(n.test, env)) else n.orelse, env)
         if isinstance(n, ast.UnaryOp):
             v = self.ev(n.operand, env)
+            if hasattr(v, "abs_unary"):
+                return v.abs_unary(n.op)
             if isinstance(n.op, ast.Invert):
                 def inv(x):
                     if isinstance(x, bool):
